@@ -54,6 +54,17 @@ func checkC12(c *Ctx) {
 	c.Rule("C12-R18", "motion with no button held carries no buttons, whatever button number the report names: the fold of such a report is decided by the held flag (and the motion bit), not by the button bits of the code")
 	c.Expect("C12-R18", 1)
 	checkMotionFoldIgnoresButtonBits(c, p, "C12-R18")
+	c.Rule("C12-R19", "a report split across reads is one mouse event: each mouse parser's 'partial' answer is counted on its own (one shared pair of results lets the second parser's 'not mine' overwrite the first one's 'wait'; = C02-R8)")
+	c.Expect("C12-R19", 2)
+	if collect := collectLoopFn(p); collect != nil {
+		c.asRule("C02-R3", "C12-R19", func() {
+			c.asRule("C02-R4", "C12-R19", func() {
+				c.asRule("C02-R8", "C12-R19", func() { c02Collect(c, p, collect, inputParsers(p)) })
+			})
+		})
+	} else {
+		c.Undecided("C12-R19", "collect loop", "-", "not found")
+	}
 	c.Rule("C12-R14", "the decimal accumulator of an SGR report saturates instead of wrapping around: a coordinate with more digits than an int holds is far beyond the screen and is clipped to the last column, not the first")
 	c.Expect("C12-R14", 1)
 	checkSgrAccumulatorSaturates(c, p, "C12-R14")
